@@ -50,6 +50,27 @@ CLAIMED = {
          'Decides only the structural clauses: origin->client relay forwards each chunk whole and re-reads from the write completion; the client->origin pipeline is appended within bounds, written from the front by one writer and popped by exactly the written bytes; failed resolve/connect answer 503 before anything reaches an origin; unparseable or non-absolute requests close the client; every teardown re-arms accept unless stopped. URI splitting, the rewritten request text and Host-header values are value-level and NOT decided.', '6 and 11.6/C18'),
 }
 
+# clauses added by the seeding rounds (DESIGN.md 11.5); appended to the level text of the property
+ADDENDA = {
+ 'C01': 'Round 5: ordered containers keyed by smart pointers; a queued timer is dequeued on every path of cancel().',
+ 'C02': 'Round 5: every jump of the clock is measured from a fresh reading of the clock (reaching-events analysis over definitions of the local and advances).',
+ 'C03': 'Round 5: fire() is only called on a dequeued timer; a constructor that marks the timer pending queues it.',
+ 'C05': 'Round 5: segments, retransmissions and ACKs are sent on the hops of their own direction (channel orientation); scatter reads re-assign the buffer offset whenever the buffer cursor is stepped.',
+ 'C07': 'Round 5: acceptor::close(ec) empties the accept queue; registry entries are re-pointed only by their owner.',
+ 'C08': 'Round 5: the pacing cursor is pulled up to the clock before it is advanced; the NAT rewrite of the source is unconditional; the sender prepends its whole outgoing route.',
+ 'C09': 'Round 5: channel orientation (hops[i] leads to ep[i]) and order-preserving route composition.',
+ 'C11': 'Round 5: sorted-range algorithms only on containers kept sorted; move constructors read no field of the source after resetting it; closing an acceptor empties its accept queue.',
+ 'C12': 'Round 5: move re-points the registry under the transferred binding; the acceptor\'s borrowed out-pointers are rewritten whenever an accept slot is armed; the resolver touches no member after invoking a handler.',
+ 'C13': 'Round 5: the channel\'s two routes are composed from the right sockets\' routes, in order and in full.',
+ 'C14': 'Round 5: the configured latency is added at clock resolution; on_lookup touches nothing of the resolver after invoking the user\'s handler.',
+ 'C15': 'Round 5: no comparison uses a signed difference converted to unsigned without a dominating order guard.',
+ 'C16': 'Round 5: the keep-alive decision reads only per-request or construction-time state; header keys are lower-case as stored; re-arming the accept re-examines the accept queue.',
+ 'C17': 'Round 5: close_connection() closes every TCP member; closures handed to asynchronous operations own their payload; every non-error path of on_read_udp re-arms the receive.',
+ 'C18': 'Round 5: at most one origin connection attempt per client connection (latch falsified synchronously by the initiation); header keys lower-case.',
+ 'C19': 'Round 5: every locally built segment has packet::from set before send_packet.',
+ 'C20': 'Round 5: the accepted side looks the path MTU up for the connector\'s address (channel orientation).',
+}
+
 NOT_YET = {}
 
 NOT_APPLICABLE = {
@@ -62,6 +83,8 @@ def main():
     for p in props:
         if p in CLAIMED:
             tech, text, ref = CLAIMED[p]
+            if p in ADDENDA:
+                text = text + ' ' + ADDENDA[p]
             checks.append({
                 'property_id': p,
                 'quick_cmd': './check %s --tier quick' % p,
